@@ -284,10 +284,12 @@ func (f *Formatter) walkChildrenArgumentList(typeDef *ast.Definition, childs ast
 			continue
 		}
 
-		if len(ch.Value.Children) > 0 && ch.Value.Definition != nil {
-			chTypeDef, ok := f.schema.Types[ch.Value.Definition.Name]
-			if !ok {
-				continue
+		if len(ch.Value.Children) > 0 {
+			// a value inside a custom scalar has no definition attached,
+			// the variables inside are still used by the request
+			var chTypeDef *ast.Definition
+			if ch.Value.Definition != nil {
+				chTypeDef = f.schema.Types[ch.Value.Definition.Name]
 			}
 			for k, v := range f.walkChildrenArgumentList(chTypeDef, ch.Value.Children) {
 				res[k] = v
@@ -296,18 +298,30 @@ func (f *Formatter) walkChildrenArgumentList(typeDef *ast.Definition, childs ast
 		}
 
 		if ch.Value.Kind == ast.Variable {
-			// child name is empty if it's an array, f.e. hello(arrArg: [$someVariable])
-			if ch.Name == "" {
-				res[ch.Value.Raw] = ch.Value.ExpectedType.String()
+			if t := childVariableType(typeDef, ch); t != "" {
+				res[ch.Value.Raw] = t
 			}
-			ad := typeDef.Fields.ForName(ch.Name)
-			if ad == nil {
-				continue
-			}
-			res[ch.Value.Raw] = ad.Type.String()
 		}
 	}
 	return res
+}
+
+// childVariableType returns the type to declare for a variable used inside a list or an object value
+func childVariableType(typeDef *ast.Definition, ch *ast.ChildValue) string {
+	// child name is empty if it's an array, f.e. hello(arrArg: [$someVariable])
+	if ch.Name == "" && ch.Value.ExpectedType != nil {
+		return ch.Value.ExpectedType.String()
+	}
+	if typeDef != nil {
+		if ad := typeDef.Fields.ForName(ch.Name); ad != nil {
+			return ad.Type.String()
+		}
+	}
+	// the schema says nothing about positions inside a custom scalar, use the client's own declaration
+	if ch.Value.VariableDefinition != nil {
+		return ch.Value.VariableDefinition.Type.String()
+	}
+	return ""
 }
 
 func (f *Formatter) formatSelectionSet(sets ast.SelectionSet) {
